@@ -345,6 +345,28 @@ def run(ctx: Ctx) -> None:
                             "a dict with a frozenset key is then hashed through str(frozenset(..)), whose element order follows PYTHONHASHSEED: the same program has different "
                             "signatures in two processes (and {1: v} collides with {'1': v})"], stmt_key(c), what="the text form of an arbitrary value is hashed")
     rep.floor("C03.R6", n6, 2)
+    # ... and an OPEN base class among these types (datetime.tzinfo: anybody may subclass it) has a text only if the subclass defines one
+    rep.rule("C03.R12", "where the text form `repr(x)` of a value is hashed under a test that names an abstract base class (datetime.tzinfo), the default object text - "
+                        "`<T object at 0x...>`, a memory address - is excluded first (`type(x).__repr__ is object.__repr__` leads to a coded error)")
+    n12 = 0
+    for g_ in _family5(ctx):
+        gcfg = cfg_of(g_)
+        for st in g_.own_nodes():
+            if not (isinstance(st, ast.If) and any(isinstance(x, ast.Call) and unparse(x.func) == "isinstance" and len(x.args) == 2 and "tzinfo" in unparse(x.args[1], 300) for x in ast.walk(st.test))):
+                continue
+            reprs = [x for b_ in st.body for x in ast.walk(b_) if isinstance(x, ast.Call) and isinstance(x.func, ast.Name) and x.func.id == "repr"]
+            for r_ in reprs:
+                n12 += 1
+                guards = [b for b in gcfg.nodes if b.kind == "branch" and b.label == "F" and b.ast is not None and "__repr__" in unparse(b.ast, 200)]
+                from .common import dominated as _dom12
+                desc = f"`{unparse(r_, 30)}` is taken only for values whose type defines a text form"
+                if guards and _dom12(ctx, g_, r_, guards) is None:
+                    rep.ok("C03.R12", g_.qname, desc, g_.loc(r_))
+                else:
+                    rep.bad("C03.R12", g_.qname, desc, g_.loc(r_), [f"{g_.loc(st)}: the branch accepts every subclass of datetime.tzinfo",
+                            f"{g_.loc(r_)}: a subclass that defines no __repr__ is hashed from `<pkg.TZ object at 0x7f..>`: the signature differs between two processes, and between two equal "
+                            "objects of one process"], stmt_key(r_), what="the default object text (a memory address) of a tzinfo subclass is hashed")
+    rep.floor("C03.R12", n12, 1)
 
     # ---- R11: debugging options guard no state change ----------------------------------------------------------------
     rep.rule("C03.R11", "a block of the API module that runs only under a debugging option (extra_debug, graph export) assigns no module global, calls no mutating "
